@@ -169,6 +169,10 @@ fn main() {
                 println!("determinism self-test: {total} runs compared across 3 processes each, {bad} divergent (scenario, seed) pairs");
                 if bad == 0 { 0 } else { 2 }
             }
+            Some("grind-rsa-zeros") => {
+                println!("{}", serde_json::to_string_pretty(&refimpl::grind_rsa_zeros()).unwrap());
+                0
+            }
             Some("grind-p384") => {
                 let want: usize = args.get(3).and_then(|s| s.parse().ok()).unwrap_or(4);
                 println!("{}", serde_json::to_string_pretty(&refimpl::grind_p384(want)).unwrap());
